@@ -348,8 +348,7 @@ std::string RunLoad(const JVal& scn, const std::string& doc, const std::string& 
 			WithType(root["t"].GetString(), [&](auto* tag) {
 				using T = std::remove_pointer_t<decltype(tag)>;
 				T target = Prior<T>();
-				try { loadWith(target); }
-				catch (...) { log.Add("[\"root\"," + Canon(target) + "]"); throw; }
+				loadWith(target);      // on an exception the partly loaded target is not logged (its state is unspecified)
 				log.Add("[\"root\"," + Canon(target) + "]");
 			});
 		}
